@@ -96,9 +96,12 @@ def parse_driver_line(line):
     if line.startswith('ERR'):
         raise HarnessError('driver: ' + line)
     parts = line.split('\t')
-    if len(parts) != 7 or parts[3] != 'S' or parts[5] != 'B':
+    if len(parts) not in (7, 12) or parts[3] != 'S' or parts[5] != 'B':
         raise HarnessError('driver: ' + line)
     out = {'id': parts[0], 'lspec': [x for x in parts[4].split(';') if x], 'tree': parts[6]}
+    if len(parts) == 12:
+        rows_ = lambda s_: [x for x in s_.split(';') if x]  # noqa: E731
+        out['l2'] = {'on': [rows_(parts[8]), rows_(parts[9])], 'off': [rows_(parts[10]), rows_(parts[11])]}
     if parts[1] == 'R':
         out['model'] = ('rows', [x for x in parts[2].split(';') if x])
     elif parts[1] == 'T':
